@@ -22,6 +22,37 @@ def is_counter_increment(kind, detail):
     return False
 
 
+def gather(ctx, R, F, reach, collect, skip=lambda kind: False):
+    """collect the sinks of every function of `reach` on its body WITH new (transparent) helpers inlined — each sink is judged in the context of its
+    caller, as before the helper was extracted. A sink that sits in an inlined helper is counted ONCE per original location (not once per call
+    site), and is discharged only if it is discharged in every calling context. Returns (residual {(fn, kind): [(loc, detail)]}, total, discharged)."""
+    residual = defaultdict(list)
+    origin = defaultdict(list)
+    total = discharged = 0
+    for key in sorted(reach):
+        for kind, loc, why, detail in collect(key):
+            if skip(kind):
+                continue
+            g = (detail or {}).get("inl")
+            if g:
+                origin[(g, kind, loc)].append((why, detail))
+                continue
+            total += 1
+            if why:
+                discharged += 1
+                ctx.ok(R, "%s|%s@auto" % (key, kind), why, loc)
+            else:
+                residual[(key, kind)].append((loc, detail))
+    for (g, kind, loc), copies in sorted(origin.items()):
+        total += 1
+        if all(c[0] for c in copies):
+            discharged += 1
+            ctx.ok(R, "%s|%s@auto" % (g, kind), "%s (in each of its %d calling contexts)" % (copies[0][0], len(copies)), loc)
+        else:
+            residual[(g, kind)].append((loc, copies[0][1]))
+    return residual, total, discharged
+
+
 def base_fn(key):
     return key.split("::{closure")[0]
 
@@ -78,20 +109,12 @@ def run_census(ctx, R, reach, table_file, skip_kinds=("cast", "alloc", "loop"), 
     F = ctx.facts
     path = os.path.join(VERIF, "rules", "tables", table_file)
     table = json.load(open(path)) if os.path.exists(path) else {"residual": {}}
-    residual = defaultdict(list)
-    total = discharged = 0
-    for key in sorted(reach):
-        for kind, loc, why, detail in c12.collect_sinks(F, key):
-            if kind.split(":")[0] in skip_kinds:
-                continue
-            if skip_overflow_add and kind in ("overflow:Add", "overflow:Mul", "overflow:Shl", "overflow:Shr", "overflow:Neg"):
-                continue   # out of scope here: counters and sizes (assumption); subtraction underflow IS in scope
-            total += 1
-            if why:
-                discharged += 1
-                ctx.ok(R, "%s|%s@auto" % (key, kind), why, loc)
-            else:
-                residual[(key, kind)].append((loc, detail))
+    def skip(kind):
+        if kind.split(":")[0] in skip_kinds:
+            return True
+        # out of scope here: counters and sizes (assumption); subtraction underflow IS in scope
+        return skip_overflow_add and kind in ("overflow:Add", "overflow:Mul", "overflow:Shl", "overflow:Shr", "overflow:Neg")
+    residual, total, discharged = gather(ctx, R, F, reach, lambda key: c12.collect_sinks(F, key), skip)
     ctx.extra.setdefault("census", {})[R] = {"functions": len(reach), "sinks": total, "discharged_automatically": discharged}
     if os.environ.get("QV_CENSUS_GEN") == "1":
         tbl = {"residual": {}}
